@@ -1459,7 +1459,7 @@ package mcp
 //@   rangeloop invariant @cursor-only-moves-forward resumeID != "" ==> local(lastEventID) != ""
 // (since seed C09-9) An event that does not decode is never skipped: its id has already become the cursor, so reading on
 // would resume behind a message that was not delivered. It fails the connection - the clean error of the property.
-//@   track jsonrpc2.DecodeMessage as decode
+//@   track DecodeMessage as decode
 //@   track (*streamableClientConn).fail as failConn
 //@   rangeloop invariant @reading-continues-only-past-events-that-decoded calls(decode) == 0 || lastResult(decode, 1) == nil
 //@   ensures @an-undecodable-event-fails-the-connection calls(decode) >= 1 && lastResult(decode, 1) != nil ==> calls(failConn) >= 1 && result.2
